@@ -14,6 +14,7 @@ import (
 	"time"
 
 	"github.com/wi1dcard/fingerproxy/pkg/http2"
+	"golang.org/x/net/http2/hpack"
 )
 
 // proxyGoroutines counts goroutines that serve client connections of the proxy.
@@ -95,7 +96,21 @@ func init() {
 				return "fail=handshake"
 			}
 			conn.SetDeadline(time.Time{})
-			if neg == "h2" {
+			if neg == "h2" && kv["how"] == "rst" {
+				// the only stream of the connection ends by a client RST_STREAM instead of a complete exchange;
+				// the connection is idle afterwards all the same
+				io.WriteString(conn, http2.ClientPreface)
+				fr := http2.NewFramer(conn, conn)
+				fr.WriteSettings()
+				var hb bytes.Buffer
+				enc := hpack.NewEncoder(&hb)
+				for _, f := range [][2]string{{":method", "POST"}, {":scheme", "https"}, {":path", "/slow"}, {":authority", "example.test"}, {"x-verif-tag", "life"}} {
+					enc.WriteField(hpack.HeaderField{Name: f[0], Value: f[1]})
+				}
+				fr.WriteHeaders(http2.HeadersFrameParam{StreamID: 1, BlockFragment: hb.Bytes(), EndHeaders: true, EndStream: false})
+				time.Sleep(30 * time.Millisecond)
+				fr.WriteRSTStream(1, http2.ErrCodeCancel)
+			} else if neg == "h2" {
 				h2Exchange(conn, []string{"S:", "H:1.1.-.0.0"}, req)
 			} else {
 				h1Exchange(conn, req)
@@ -174,13 +189,20 @@ func init() {
 			c.op("life kind=idle proto=" + p + " idle=250")
 			c.tag("kind:idle")
 		}
+		c.op("life kind=idle proto=h2 idle=250 how=rst")
+		c.tag("kind:idle-after-rst")
 		for i := 0; i < c.count; i++ {
 			r := c.rng.fork()
 			p := []string{"h1", "h2"}[r.intn(2)]
 			switch r.intn(5) {
 			case 0:
 				c.tag("kind:idle")
-				c.op(fmt.Sprintf("life kind=idle proto=%s idle=%d", p, []int{150, 300, 500}[r.intn(3)]))
+				how := ""
+				if p == "h2" && r.chance(1, 2) {
+					how = " how=rst"
+					c.tag("kind:idle-after-rst")
+				}
+				c.op(fmt.Sprintf("life kind=idle proto=%s idle=%d%s", p, []int{150, 300, 500}[r.intn(3)], how))
 			case 1:
 				c.tag("kind:hstall")
 				c.op(fmt.Sprintf("life kind=hstall hto=%d at=%d", []int{150, 300}[r.intn(2)], []int{0, 1, 4, 5, 6, 50, 200}[r.intn(7)]))
